@@ -13,6 +13,8 @@ every device.  Four sub-checks, all driving `vp/harness/c09_bed.py`:
   cut    every sequence of a smaller depth x link disconnection requested at every message
          boundary of its fault-free run x by either end (x either link)
   sched  selected scripts x every order-preserving delivery delay with <= d deviations
+  churn  one channel opened and closed 70-140 times in a row (more often than there are dynamic LE
+         CIDs and signalling identifiers): closed identifiers stay reusable
 
 Oracle (reference = the set of channel halves the script says are open): see Bed.check_tables,
 Bed._account, Bed.finish_cut, Bed.epilogue.
@@ -81,10 +83,6 @@ def project(ops, L):
 # running one case
 # ---------------------------------------------------------------------------
 _PROJ_MEMO: dict = {}
-
-
-def strip_par(obs):
-    return obs
 
 
 def run_case(case, sched=None, want_projection=True):
@@ -493,8 +491,9 @@ def run(ctx: core.Context) -> int:
         rule=(
             'seq1/seq2: every script (operation sequence) over the stated alphabets up to the stated depth, one fresh world each; '
             'cut1/cut2: every script x every message boundary of its fault-free run x disconnect requested by either end (x either link); '
-            'sched: scripts x all order-preserving delivery delays with <= 1 deviation. distinct = (links, script, cut) / schedule prefix. '
-            'A case is non-trivial when it opens at least one channel or provokes a refusal.'
+            'sched: scripts x all order-preserving delivery delays with <= 1 deviation; churn: 70-140 open/close cycles per kind, '
+            'initiator and closer. distinct = (links, script, cut) / schedule prefix; every script starts with an open or a '
+            'refused open, so every case is non-trivial; script_outcomes = distinct per-operation result lists.'
         ),
         assumptions=[
             'both ends are bumble stacks on the in-process LocalLink; the link itself loses nothing (C05/C06)',
